@@ -67,9 +67,10 @@ Definition codes_eqb := list_eqb N.eqb.
 
 (* one call of ClientGenerator.generate(spec, root, client, force, core_package=<layout>);
    second component: the call returned (true) / raised GenerationError (false) *)
-Definition step_out (l : layout) (w : world) (g : gen_call) : world * bool :=
+(* [ex] = out_dir.exists() *)
+Definition step_out_with (l : layout) (ex : bool) (w : world) (g : gen_call) : world * bool :=
   let c := g_client g in
-  if negb (g_force g) && dir_exists l w c then
+  if negb (g_force g) && ex then
     (* diff path: everything is emitted under a temporary root whose registry is empty, then
        compared with the existing files; nothing under the project root changes.  The comparison
        always finds a difference here: a client that was generated before differs in its rich
@@ -78,14 +79,17 @@ Definition step_out (l : layout) (w : world) (g : gen_call) : world * bool :=
     (w, false)
   else
     (* direct path: shutil.rmtree(out_dir) when it exists — this takes the core with it when the
-       core lives inside this client's directory *)
-    let wiped := dir_exists l w c && inside l c in
-    let reg0 := if wiped then None else registry w in
+       core lives inside this client's directory, but the registry file is read before the
+       clean-up and written back afterwards (the alias classes are regenerated from it) *)
+    let reg0 := registry w in
     (* ExceptionsEmitter.emit *)
     let reg1 := if is_shared l then Some (aset (reg_or_empty reg0) c (errs_of g)) else reg0 in
     let al := if is_shared l then union_codes (reg_or_empty reg1) else errs_of g in
     ({| registry := reg1; aliases := Some al; clients := aset (clients w) c (imports_of g);
         claimed := add_str c (claimed w) |}, true).
+
+Definition step_out (l : layout) (w : world) (g : gen_call) : world * bool :=
+  step_out_with l (dir_exists l w (g_client g)) w g.
 
 Definition step (l : layout) (w : world) (g : gen_call) : world := fst (step_out l w g).
 Definition run (l : layout) (h : list gen_call) : world := fold_left (step l) h init.
@@ -118,15 +122,5 @@ Definition works_b (w : world) : bool :=
 (* well-formed layout: the core package has at least one component (F11a is fixed: a core is
    recognised as shared at any depth, so this is no longer a finding guard) *)
 Definition wf_layout (l : layout) : bool := is_shared l.
-(* F11b: the client whose directory contains the core is regenerated through the direct path
-   while that directory exists (rmtree takes registry and aliases with it) *)
-Definition bad_F11b (l : layout) (w : world) (g : gen_call) : bool :=
-  inside l (g_client g) && dir_exists l w (g_client g) && g_force g.
-Fixpoint never (bad : layout -> world -> gen_call -> bool) (l : layout) (w : world) (h : list gen_call) : bool :=
-  match h with
-  | [] => true
-  | g :: r => negb (bad l w g) && never bad l (step l w g) r
-  end.
-Definition guard_F11b (l : layout) (h : list gen_call) : bool := never bad_F11b l init h.
 Definition guard (l : layout) (h : list gen_call) : bool :=
-  wf_layout l && guard_F11b l h.
+  wf_layout l.
